@@ -226,11 +226,13 @@ def spec_update(t, s, ow):
     def num(v):
         return None if v is None else v['num']
     conflict = False
+    cp_conflict = False
     tcp = dict((T, num(v)) for T, v in t['cp'])
     scp = dict((T, num(v)) for T, v in s['cp'])
     for T, v in scp.items():
         if T in tcp and tcp[T] != v:
             conflict = True
+            cp_conflict = True
     for f in ('H', 'S'):
         a, b = num(t[f]), num(s[f])
         if a is not None and b is not None and not isclose15(a, b):
@@ -257,7 +259,9 @@ def spec_update(t, s, ow):
         return r[0] <= min(cpkeys) and max(cpkeys) <= r[1] and r[0] <= Tref <= r[1]
     ok_final = consistent(list(cp), t['Tref'], m['range'])
     if conflict and not ow:
-        return 'readOnly', None
+        # a merge that is both conflicting and inconsistent may be rejected for either reason (the property fixes the
+        # error class only for a conflict; a conflicting table point is found before anything else)
+        return ('readOnly' if (cp_conflict or ok_final) else 'either'), None
     if not ok_final:
         return 'invalid', None
     return 'ok', m
@@ -315,6 +319,11 @@ def check_sequences(ctx, rng, n, batch):
                 if err != 'readOnly':
                     ctx.violation('two different values for one datum are not rejected with ReadOnlyDataError', inp,
                                   expected='readOnly', observed=err or after, finding=classify_zero_dropped(before_t, before_s))
+            elif verdict == 'either':
+                ctx.count('conflicting_and_inconsistent')
+                if err not in ('readOnly', 'value', 'assertion'):
+                    ctx.violation('a conflicting and inconsistent merge is not rejected', inp, expected='readOnly or value',
+                                  observed=err or after)
             elif verdict == 'invalid':
                 if err is None:
                     ctx.violation('a merge whose result is inconsistent (table / T_ref outside the range) was accepted', inp,
@@ -714,6 +723,8 @@ def check_lib_sequences(ctx, rng, n, batch):
                 else:
                     failed = True
                     want = 'readOnly' if verdict == 'readOnly' else None
+                    if verdict == 'either' and err in ('readOnly', 'value', 'assertion'):
+                        want = err
                     if err is None or (want and err != want):
                         ctx.violation('a conflicting library merge is not rejected with ReadOnlyDataError' if want else
                                       'an inconsistent library merge was accepted', dict(inp, group=nm), expected=want or 'rejected',
@@ -799,6 +810,10 @@ def run(ctx):
     compare_batch(ctx, batch)
     ctx.assumption('A-ref', True, '%d wholes evaluated at their reference temperature, max relative deviation %.2e' %
                    (_ref_checked[0], _ref_checked[1]))
+    from .c12 import reach_floor
+    reach_floor(ctx, ['update_ok', 'update_readOnly', 'update_value', 'load_ok', 'load_key', 'load_readOnly', 'load_inputData',
+                      'files_2', 'files_3', 'files_4', 'mode_clean', 'mode_conflict', 'mode_duplicate', 'mode_empty_entry',
+                      'mode_invalid_part', 'libupdate_ok', 'libupdate_readOnly', 'corr_c13.seq', 'corr_c13.load', 'corr_c13.libseq'])
 
 
 def replay(ctx, rec):
@@ -823,6 +838,8 @@ def replay(ctx, rec):
                 ctx.violation('a rejected merge changed the correlation', inp, expected=bt, observed=after)
             if verdict == 'readOnly' and err != 'readOnly':
                 ctx.violation('two different values for one datum are not rejected with ReadOnlyDataError', inp, 'readOnly', err or after)
+            if verdict == 'either' and err is None:
+                ctx.violation('a conflicting and inconsistent merge is not rejected', inp, 'readOnly or value', after)
             if verdict == 'invalid' and err is None:
                 ctx.violation('an inconsistent merge was accepted', inp, 'rejected', after)
             if verdict == 'ok' and (err is not None or not states_close(after, merged)):
